@@ -51,7 +51,7 @@ const (
 	hsWall      = 20 * time.Second
 	dataWall    = 20 * time.Second
 	dataPerOp   = 4 * time.Second
-	dataQueries = 6000
+	dataQueries = 100000
 )
 
 var hsDebug = os.Getenv("VERIF_HS_TRACE") != ""
@@ -952,8 +952,7 @@ func hsDataCheck(p hsPath, comm *pathComm, srv *sdns.ServerDnsListener, client *
 			buf := make([]byte, 65536)
 			pollErr := ""
 			stop := time.Now().Add(dataPerOp)
-			idle := 0
-			for len(got) < len(data) && time.Now().Before(stop) && idle < 2000 {
+			for len(got) < len(data) && time.Now().Before(stop) {
 				var perr error
 				if !hsWithTimeout(dataPerOp, func() { perr = client.SendAndReceive(nil) }) {
 					comm.exhaust()
@@ -973,10 +972,7 @@ func hsDataCheck(p hsPath, comm *pathComm, srv *sdns.ServerDnsListener, client *
 				}
 				if len(got) == before {
 					// nothing yet: the server-side Write may not have queued its chunks
-					idle++
-					time.Sleep(100 * time.Microsecond)
-				} else {
-					idle = 0
+					time.Sleep(time.Millisecond)
 				}
 			}
 			if pollErr != "" {
@@ -1030,7 +1026,7 @@ func hsDataCheck(p hsPath, comm *pathComm, srv *sdns.ServerDnsListener, client *
 			}
 			drain()
 			if len(gotDn) == 0 {
-				time.Sleep(100 * time.Microsecond)
+				time.Sleep(time.Millisecond)
 			}
 		}
 		var werr error
@@ -1042,18 +1038,14 @@ func hsDataCheck(p hsPath, comm *pathComm, srv *sdns.ServerDnsListener, client *
 		if werr != nil || wn != len(up) {
 			return fmt.Sprintf("data-duplex write-error len=%d/%d %s", len(up), len(dn), tag)
 		}
-		idle := 0
-		for len(gotDn) < len(dn) && time.Now().Before(stop) && idle < 2000 {
+		for len(gotDn) < len(dn) && time.Now().Before(stop) {
 			before := len(gotDn)
 			if err := client.SendAndReceive(nil); err != nil {
 				return fmt.Sprintf("data-duplex poll-error len=%d/%d %s", len(up), len(dn), tag)
 			}
 			drain()
 			if len(gotDn) == before {
-				idle++
-				time.Sleep(100 * time.Microsecond)
-			} else {
-				idle = 0
+				time.Sleep(time.Millisecond)
 			}
 		}
 		gotUp := []byte{}
